@@ -710,9 +710,18 @@ namespace bloch::compiler {
         while (check(TokenType::At)) {
             // TODO: refactor this, currently if invalid variable annotation is used, it will be
             // caught rather than thrown this is a rather hacky solution.
+            const size_t annotationStart = m_current;
             try {
                 annotations.push_back(parseVariableAnnotation());
             } catch (BlochError error) {
+                // The failed attempt has already consumed '@': rewind before retrying as a
+                // function/method annotation, otherwise '@quantum' on a class member is rejected.
+                m_current = annotationStart;
+                if (checkNext(TokenType::Shots)) {
+                    // @shots configures the program entry point only; this list is used for
+                    // class members and local declarations.
+                    reportError("\"@shots\" is only allowed on the main function");
+                }
                 annotations.push_back(parseFunctionAnnotation());
             }
         }
